@@ -426,9 +426,11 @@ struct DeReplay {
 /// whose difference to the previous level is below 0.75 tol (any correct implementation has
 /// stopped by then) and (b) be accurate to `t_acc` at every level l >= 2 up to that one whose
 /// difference is below sqrt(1.25 tol) (every level at which it could stop).
-fn de_replay(f: &dyn Fn(f64) -> C, exact_core: C, tol: f64, t_acc: f64) -> DeReplay {
+/// Level sums of the double-exponential rule on the harness's own nodes: per level (difference to the
+/// previous estimate, |estimate - exact_core|). The routine's first estimate is pi f(0) (halved at level 0).
+fn de_levels(f: &dyn Fn(f64) -> C, exact_core: C) -> Vec<(f64, f64)> {
     let nodes = de_nodes();
-    let mut out = DeReplay { certain: None, potential_ok: true };
+    let mut out = vec![];
     let mut integral = f(0.0) * std::f64::consts::FRAC_PI_2;
     for (l, level) in nodes.iter().enumerate() {
         let h = 0.5f64.powi(l as i32);
@@ -437,23 +439,39 @@ fn de_replay(f: &dyn Fn(f64) -> C, exact_core: C, tol: f64, t_acc: f64) -> DeRep
             s += (f(*x) + f(-*x)) * *w;
         }
         let new = if l == 0 { integral + s } else { integral * 0.5 + s * h };
-        let d = (new - integral).norm();
+        let d = if l == 0 { (integral - s).norm() } else { (new - integral).norm() };
         integral = new;
-        if l >= 2 {
-            if d * d < 1.25 * tol && !((integral - exact_core).norm() <= t_acc) {
-                out.potential_ok = false;
-            }
-            if d < 0.75 * tol {
-                out.certain = Some(l);
-                return out;
-            }
-        }
+        out.push((d, (integral - exact_core).norm()));
     }
     out
 }
 
-/// differences |S_l - S_{l-1}| of the harness's own tanh-sinh level sums for l = 0, 1 (workload
-/// shaping only: used to steer cases towards the first decisions of the stopping heuristic)
+/// The documented stopping rule replayed on the harness's own level sums. From level 2 on the
+/// routine stops when the difference d itself is below the tolerance, or when d^2 is and the trend
+/// r = ln d_l / ln d_{l-1} lies in (1.9, 2.1) ("convergent region"). A level counts as a POSSIBLE
+/// stop with margins on every comparison (1.25 tol, r in [1.85, 2.15], or r numerically undefined):
+/// every possible stop must be accurate. A level whose d^2 is below the tolerance with r clearly
+/// outside the window is not a stop of the routine: returning there is its error, not the class's.
+fn de_replay(f: &dyn Fn(f64) -> C, exact_core: C, tol: f64, t_acc: f64) -> DeReplay {
+    let mut out = DeReplay { certain: None, potential_ok: true };
+    let lv = de_levels(f, exact_core);
+    for l in 2..lv.len() {
+        let (d, err) = lv[l];
+        let dp = lv[l - 1].0;
+        let r = d.ln() / dp.ln();
+        let r_unreliable = !(r.is_finite()) || dp.ln().abs() < 1e-6 || dp == 0.0;
+        let in_window = r_unreliable || (r >= 1.85 && r <= 2.15);
+        let possible = d < 1.25 * tol || (in_window && d * d < 1.25 * tol);
+        if possible && !(err <= t_acc) {
+            out.potential_ok = false;
+        }
+        if d < 0.75 * tol {
+            out.certain = Some(l);
+            return out;
+        }
+    }
+    out
+}
 fn de_first_differences(f: &dyn Fn(f64) -> C) -> (f64, f64) {
     let nodes = de_nodes();
     let mut integral = f(0.0) * std::f64::consts::FRAC_PI_2;
@@ -1254,6 +1272,56 @@ fn case_tanhsinh(rng: &mut Rng, rep: &mut Report) {
         run_tanhsinh(rep, &fun, a, b, tol);
         return;
     }
+    // Stratum "small difference outside the trend window" (6 %, steered): a level l >= 2 whose
+    // difference is accidentally small (d^2 < tol <= d) while r = ln d_l / ln d_{l-1} is clearly
+    // outside (1.9, 2.1) and the estimate of that level is still far off. The routine must go on
+    // there; trusting d^2 regardless of the trend returns errors of 10..1000 tol (C09-m13). About
+    // 4 in 100 000 members of the general family are sensitive without steering.
+    if rng.chance(0.06) {
+        let complex = rng.chance(0.3);
+        for _ in 0..400 {
+            let len = rng.r(1.0, 4.0);
+            let a2 = rng.r(-5.0, 5.0 - len);
+            let b2 = a2 + len;
+            let mut f2 = Fun::zero(complex);
+            let wmax = (DE_SIGMA_CORE_MAX - 0.05) * 2.0 / len;
+            f2.sins.push((rng.r(0.5, 1.5) * rng.sign(), rng.r(0.3 * wmax, wmax), rng.r(0.0, 6.283)));
+            if rng.bool() {
+                f2.exps.push((rc(rng, complex), C::new(rng.r(-1.0, 1.0).min(wmax), 0.0)));
+            }
+            let (scale, shift) = (0.5 * len, 0.5 * (a2 + b2));
+            let (exact, mag) = f2.integral(a2, b2);
+            let fc = |t: f64| f2.eval_c(scale * t + shift);
+            let lv = de_levels(&fc, exact / scale);
+            let mut pick = None;
+            for l in 2..lv.len().min(6) {
+                let (d, err) = lv[l];
+                let dp = lv[l - 1].0;
+                if !(d > 0.0 && dp > 0.0 && d < 1.0 && dp < 0.9) {
+                    continue;
+                }
+                let r = d.ln() / dp.ln();
+                // tol in (1.3 d^2, min(0.7 d, err / (12 scale))): the squared difference is below it, the
+                // difference is not, and the level's error is far above it
+                let lo = 1.3 * d * d;
+                let hi = (0.7 * d).min(err * scale.max(1.0) / 12.0);
+                if (r > 2.3 || r < 1.7) && hi > 1.5 * lo && lo >= 1e-9 {
+                    pick = Some(lo * (hi / lo).powf(rng.r(0.2, 0.8)));
+                    break;
+                }
+            }
+            if let Some(tol2) = pick {
+                let rp = de_replay(&fc, exact / scale, tol2, 0.5 * tol2 / scale.max(1.0));
+                let rounding_ok = FLOOR_C * EPS * mag * 2.0 <= tol2 / CLASS_FLOOR_DIV;
+                if rounding_ok && rp.certain.is_some() && rp.potential_ok {
+                    rep.count("tanhsinh/small_difference_outside_trend_window_steered", 1);
+                    run_tanhsinh(rep, &f2, a2, b2, tol2);
+                    return;
+                }
+            }
+        }
+        rep.count("tanhsinh/small_difference_outside_trend_window_not_found", 1);
+    }
     let complex = rng.chance(0.3);
     // Stratum "odd on a symmetric interval" (4 %): the integral is exactly 0 and every level sum
     // cancels exactly, so every difference between levels is exactly zero
@@ -1288,9 +1356,33 @@ fn vanish_at(fun: &mut Fun, x1: f64) {
 
 fn case_gauss(rng: &mut Rng, rep: &mut Report) {
     let complex = rng.chance(0.3);
-    let (a, b) = gen_interval(rng);
-    let tol = gen_tol(rng);
+    let (mut a, mut b) = gen_interval(rng);
+    let mut tol = gen_tol(rng);
+    // Stratum "short interval, large values, tight tolerance" (12 %): the tolerance handed to the
+    // rule sequence is the caller's divided by the half length; on a short interval a wrong scaling
+    // of it is off by the square of the half length (1600 x at length 0.05), which only shows when
+    // the integrand is large enough for the rule sums to carry rounding noise near that level
+    let short = rng.chance(0.12);
+    if short {
+        let len = rng.r(0.05, 0.4);
+        a = rng.r(-5.0, 5.0 - len);
+        b = a + len;
+        tol = rng.log10(-11.0, -9.0);
+    }
     let mut fun = gen_fun_interval(rng, complex, a, b, Mix::All, 2 * (ROWS_LEGENDRE - 2) - 1);
+    if short {
+        let g = rng.log10(1.5, 3.5);
+        for c in fun.poly.iter_mut() {
+            *c *= g;
+        }
+        for e in fun.exps.iter_mut() {
+            e.0 *= g;
+        }
+        for t in fun.sins.iter_mut() {
+            t.0 *= g;
+        }
+        rep.count("gauss/short_interval_large_values_cases", 1);
+    }
     if rng.chance(0.06) {
         vanish_at(&mut fun, 0.5 * (b + a));
         rep.count("gauss/cases_vanishing_at_first_node", 1);
@@ -1521,6 +1613,8 @@ pub fn thresholds(ctx: &Ctx, rep: &Report) -> Vec<Threshold> {
     need("tanh-sinh in-class cases in the sqrt band (1e-11 <= tol < 1e-8)".into(), 2000.0, "tanhsinh/in_class_sqrt_band".into());
     need("Simpson runs whose work was compared with the textbook scheme on >= 50 panels".into(), 4000.0, "simpson/work_compared_with_50_or_more_panels".into());
     need("Simpson in-class cases with n_max = depth bound + 1 or + 2".into(), 2000.0, "simpson/in_class_tight_n_max".into());
+    need("tanh-sinh cases steered to a small level difference outside the trend window".into(), 3.0, "tanhsinh/small_difference_outside_trend_window_steered".into());
+    need("Gauss-Legendre cases on short intervals with large values and tight tolerances".into(), 1_000.0, "gauss/short_interval_large_values_cases".into());
     need("Romberg cases with two exactly equal successive trapezoid sums that have not converged".into(), 2_000.0, "romberg/equal_entry_cases".into());
     need("Romberg cases with degree 2n-2 or 2n-1".into(), 5000.0, "romberg/top_degree_cases".into());
     t
